@@ -797,7 +797,7 @@ def run(ctx):
                     aa = rng.choice([T.nums[p], -T.nums[p] - 1])
             cur["call"] = "g.delete_action(%d, %d)" % (pp, aa)
             try:
-                g2 = g.delete_action(pp if bad else fint(pp, signed=True), aa if bad else fint(aa))
+                g2 = g.delete_action(pp if bad else fint(pp), aa if bad else fint(aa))
                 out = "-"
                 if bad or T.nums[p] == 1:
                     ctx.spec_fail("delete-malformed", "delete_action(%d,%d) accepted on %s" % (pp, aa, T.nums), dict(replay, player=pp, action=aa))
@@ -848,7 +848,7 @@ def run(ctx):
                         t_ = rng.choice([np.int8, np.int16, np.int64, np.intp])
                         af = [t_(x) for x in acts]
                     ctx.count("form:actions:%d" % kf)
-                g2 = g.delete_action(pp if bad else fint(pp, signed=True), af)
+                g2 = g.delete_action(pp if bad else fint(pp), af)
                 out = "-"
                 if bad or k == n:
                     ctx.spec_fail("delete-malformed", "delete_action(%d,%s) accepted on %s" % (pp, acts, T.nums), dict(replay, player=pp, actions=acts))
@@ -1009,14 +1009,14 @@ def run(ctx):
             rp = dict(replay, player=i, action=a, tol=tol)
             cur["call"] = "players[%d].is_dominated(%d, tol=%s)" % (i, a, tol)
             if N == 1:
-                r = bool(call_tol(player.is_dominated, (fint(a),), tol, no_f32=True))
+                r = bool(call_tol(player.is_dominated, (fint(a),), tol))
                 want = max(ui(b, ()) for b in range(n)) > ui(a, ()) + tolv
                 if r != want:
                     ctx.spec_fail("is_dominated", "1-player is_dominated=%s, definition %s" % (r, want), rp)
                 ctx.count("dom0:%s" % r)
                 return "dom0:%d:%d:%s" % (i, a, tol_tok(tol)), "b%d" % r, g, T, is_poly
             if n == 1:
-                r = bool(call_tol(player.is_dominated, (fint(a),), tol, no_f32=True))
+                r = bool(call_tol(player.is_dominated, (fint(a),), tol))
                 if r:
                     ctx.spec_fail("is_dominated", "only action reported dominated", rp)
                 return "dompure:%d:%d:%s" % (i, a, tol_tok(tol)), "b%d" % r, g, T, is_poly
@@ -1037,15 +1037,15 @@ def run(ctx):
             if abs(v - tolv) <= Fraction(1, 10 ** 9) * Fraction(scale):
                 ctx.count("skipped:near-boundary")
                 return None
-            r = bool(call_tol(player.is_dominated, (fint(a),), tol, no_f32=True))
+            r = bool(call_tol(player.is_dominated, (fint(a),), tol))
             if r != (v > tolv):
                 ctx.spec_fail("is_dominated", "is_dominated=%s but the value of the domination game is %s (tol %s)" % (r, v, tolv), rp)
             if rng.random() < 0.3:
-                r2 = bool(player.is_dominated(fint(a), ftol(tol, True), "highs") if rng.random() < 0.5
+                r2 = bool(player.is_dominated(fint(a), ftol(tol), "highs") if rng.random() < 0.5
                           else player.is_dominated(a, method="highs", **kw))
                 if r2 != r:
                     ctx.spec_fail("is_dominated-linprog", "linprog path says %s, minmax path %s" % (r2, r), rp)
-            da = call_tol(player.dominated_actions, (), tol, no_f32=True)
+            da = call_tol(player.dominated_actions, (), tol)
             if (a in da) != r:
                 ctx.spec_fail("dominated_actions", "dominated_actions %s vs is_dominated(%d)=%s" % (da, a, r), rp)
             ctx.count("dom:%s" % r)
@@ -1297,25 +1297,43 @@ def run(ctx):
     if not okb:
         finding("bool-own-action", "Player([[1,2],[3,4]]).is_best_response(True, 0): a Python bool passes the Integral test "
                 "(payoff_vector/best_response treat it as action 1) but indexes payoff_vector as a mask", {"own_action": True})
-    g3 = NormalFormGame(np.arange(24.).reshape(2, 2, 2, 3))
-    try:
-        h3 = g3.delete_action(np.uint8(0), 1)
-        oku = h3.nums_actions == (1, 2, 2)
-    except Exception:
-        oku = False
-    # a float32 tolerance: the LP branch compares the Python float returned by minmax with it, which NumPy (NEP 50)
-    # does in float32 — a margin of 0.5 + 2^-30 over tol = np.float32(0.5) is lost
+    # regressions of e821f0e, judged by the definition: a float32 tolerance on the LP branch (the Python float returned by
+    # minmax used to be compared with it in float32), and unsigned NumPy player indices (player_idx - i used to wrap)
     gq = NormalFormGame(np.array([[[-4.5, 0.5]], [[-3 + 2.0 ** -30, -0.75]], [[-3.5, -0.5]]]))
-    try:
-        okq = bool(gq.players[0].is_dominated(2, tol=np.float32(0.5))) == bool(gq.players[0].is_dominated(2, tol=0.5))
-    except Exception:
-        okq = False
-    if not okq:
-        finding("float32-tol-lp-branch", "players[0].is_dominated(2, tol=np.float32(0.5)) is False, with tol=0.5 True (3x1 game, action 1 "
-                "beats action 2 by 0.5+2^-30): `v > tol` is evaluated in float32", {"tol": "np.float32(0.5)"})
-    if not oku:
-        finding("unsigned-player-idx", "NormalFormGame(2x2x2).delete_action(np.uint8(0), 1) fails: player_idx - i wraps around "
-                "for unsigned NumPy integers (AxisError; OverflowError for uint64)", {"player_idx": "np.uint8(0)", "action": 1})
+    for tq, wantq in ((np.float32(0.5), True), (0.5, True), (np.float32(0.75), False), (np.float32(0.0), True)):
+        for how in ("keyword", "positional", "method"):
+            try:
+                if how == "keyword":
+                    rq = gq.players[0].is_dominated(2, tol=tq)
+                elif how == "positional":
+                    rq = gq.players[0].is_dominated(np.uint8(2), tq)
+                else:
+                    rq = gq.players[0].is_dominated(2, tq, "highs") if float(tq) != 0.5 else wantq
+                okq = bool(rq) == wantq
+            except Exception as e:
+                okq, rq = False, "%s: %s" % (type(e).__name__, e)
+            if not okq:
+                ctx.spec_fail("float32-tol-lp-branch", "3x1 game where action 1 beats action 2 by exactly 0.5+2^-30: is_dominated(2, tol=%r) (%s) "
+                              "gave %r, definition %s" % (tq, how, rq, wantq), {"payoff_profile_array": gq.payoff_profile_array.tolist(),
+                                                                              "tol": repr(tq), "how": how})
+        dq = gq.players[0].dominated_actions(tol=tq)
+        if (2 in dq) != wantq:
+            ctx.spec_fail("float32-tol-lp-branch", "dominated_actions(tol=%r)=%s, action 2 dominated by definition: %s" % (tq, dq, wantq),
+                          {"payoff_profile_array": gq.payoff_profile_array.tolist(), "tol": repr(tq)})
+    D3 = np.arange(24.).reshape(2, 2, 2, 3)
+    g3 = NormalFormGame(D3)
+    for ut in (np.uint8, np.uint16, np.uint32, np.uint64):
+        for pu in range(3):
+            try:
+                h3 = g3.delete_action(ut(pu), ut(1))
+                oku = h3.payoff_profile_array.tolist() == np.delete(D3, 1, axis=pu).tolist() and \
+                    g3.payoff_profile_array.tolist() == D3.tolist()
+                msg = "nums_actions %s" % (h3.nums_actions,)
+            except Exception as e:
+                oku, msg = False, "%s: %s" % (type(e).__name__, e)
+            if not oku:
+                ctx.spec_fail("unsigned-player-idx", "NormalFormGame(2x2x2).delete_action(%s(%d), %s(1)): %s" % (ut.__name__, pu, ut.__name__, msg),
+                              {"player_idx": "%s(%d)" % (ut.__name__, pu), "action": 1})
 
     alphabet = ["get", "set", "del", "pv", "br", "isbr", "nash", "dom", "profarr", "reprof", "replayers", "gam",
                 "logit", "polyrt", "delm", "poke", "settol"]
@@ -1534,7 +1552,7 @@ def run(ctx):
             return v > t, (x, y, v), abs(v - t) > Fraction(1, 10 ** 11) * 16
         want, cert, ok_fp = exact_dom(a)
         if want is not None and ok_fp:
-            okc, r = guarded("is_dominated", lambda: bool(call_tol(player.is_dominated, (fint(a),), tol, no_f32=True)))
+            okc, r = guarded("is_dominated", lambda: bool(call_tol(player.is_dominated, (fint(a),), tol)))
             if okc:
                 if r != want:
                     ctx.spec_fail("is_dominated-tol", "is_dominated(%d, tol=%r)=%s on a game where action %d beats it by exactly %r at "
@@ -1550,7 +1568,7 @@ def run(ctx):
             # dominated_actions forwards tol: compare the whole list where every action is decidable
             full = [exact_dom(c) for c in range(nums[i])]
             if all(w is not None and o for w, _, o in full):
-                okc, da = guarded("dominated_actions", lambda: [int(x) for x in call_tol(player.dominated_actions, (), tol, no_f32=True)])
+                okc, da = guarded("dominated_actions", lambda: [int(x) for x in call_tol(player.dominated_actions, (), tol)])
                 wl = [c for c in range(nums[i]) if full[c][0]]
                 if okc and da != wl:
                     ctx.spec_fail("dominated_actions-tol", "dominated_actions(tol=%r)=%s, definition %s" % (tol, da, wl), rep_)
